@@ -4,6 +4,9 @@
 #include <occa/internal/core/device.hpp>
 #include <occa/internal/core/memory.hpp>
 #include <occa/internal/utils/sys.hpp>
+#ifdef LIBOCCA_OCCA_VERIF
+#include <occa/internal/utils/verif.hpp>
+#endif
 
 namespace occa {
   memory::memory() :
@@ -38,6 +41,9 @@ namespace occa {
       removeMemoryRef();
       modeMemory = modeMemory_;
       if (modeMemory) {
+#ifdef LIBOCCA_OCCA_VERIF
+        verif::yield(verif::yMemoryAddRefEnter);
+#endif
         modeMemory->addMemoryRef(this);
       }
     }
@@ -47,8 +53,17 @@ namespace occa {
     if (!modeMemory) {
       return;
     }
+#ifdef LIBOCCA_OCCA_VERIF
+    verif::yield(verif::yMemoryRemoveRefEnter);
+#endif
     modeMemory->removeMemoryRef(this);
+#ifdef LIBOCCA_OCCA_VERIF
+    verif::yield(verif::yMemoryRemoveRefUnlinked);
+#endif
     if (modeMemory->modeMemory_t::needsFree()) {
+#ifdef LIBOCCA_OCCA_VERIF
+      verif::yield(verif::yMemoryRemoveRefChecked);
+#endif
       delete modeMemory;
       modeMemory = NULL;
     }
